@@ -537,3 +537,7 @@ def run(ck):
     ck.extra["exhaustive"] = True
     ck.assumptions += ["rustc const evaluation", "oracles/crcmath.py transcribes the polynomial and prime definitions",
                        "only the x86_64 kernels are compiled in the analysed configurations (aarch64/wasm/loongarch kernels not analysed)"]
+
+# session 5 (round 10)
+EXPLANATION = EXPLANATION + " " + (
+    'ATOM/adler-reduce is evaluated per loop: wherever one running sum is reduced modulo BASE (inside the loop over NMAX-sized runs, or after it) the other is reduced in the same loop.')
